@@ -368,11 +368,11 @@ for _k, _v in ADDED_B16.items():
 ADDED_B17 = {
     "C03": "Added after the seventeenth batch: C03.24 a parseAfterValidation method that asks several child validators to parse the SAME input combines their results with the module's deep merge, never with an object spread / Object.assign (found and guards fix 739e3a7: `{a: {x: string}} & {a: {y: number}}` parsed `{a: {x, y}}` to `{a: {y}}`, executed under node before and after).",
     "C01": "Added after the seventeenth batch: C01.3 also reads the single-pass form whose table is one string constant (`SPECIAL.contains(c)`) and names the missing character; C01.29 (= C07.18) a member is taken out of a union accumulator only by a payload-precise pattern; C01.20 no longer counts the recursive descent into the general converter as a consultation of the engine.",
-    "C04": "Added after the seventeenth batch: C04.14 a comparator handed to a standard sort (closure and the Ordering-valued compiler functions it calls) contains no if / match - the standard sort panics on an inconsistent comparator once the slice has more than 20 elements; C04.13 reads the non-panicking refusal of a set-once setter and demands that the refusal mark is tested by a function that leaves when it is set (guards fix 76e8a71: a second default export panicked in the binder; now an error of the module).",
+    "C04": "Added after the seventeenth batch: C04.3a judges a visited set that travels as a parameter per cycle (void on the cycles through the function that creates it afresh; three recorded recursion edges repaired by fix 0c29580: a namespace value that contains itself is a diagnostic now); C04.14 a comparator handed to a standard sort (closure and the Ordering-valued compiler functions it calls) contains no if / match - the standard sort panics on an inconsistent comparator once the slice has more than 20 elements; C04.13 reads the non-panicking refusal of a set-once setter and demands that the refusal mark is tested by a function that leaves when it is set (guards fix 76e8a71: a second default export panicked in the binder; now an error of the module).",
     "C05": "Added after the seventeenth batch: C05.13 excludes routes back through the region's own function when it decides whether a callee contains the engine call, and accepts a memo read as an engine answer only when the table is filled with engine answers alone and its key covers both operands of the question (the report names the uncovered operand).",
     "C07": "Added after the seventeenth batch: C07.17 (= C11.10) a raw RuntypeKind::AllOf is constructed by the merging smart constructor only, or consumed by the semantic engine on the spot; C07.18 a predicate that selects members of a set of Runtypes for removal leaves no payload that is a multi-variant enum unconstrained (`Const(_)`).",
     "C08": "Added after the seventeenth batch: C08.19 (= C09.22) inside the hoist-key converters every call of a compiler function is another converter of the table or Clone::clone - a key never carries a value computed from the payload (a printed name).",
-    "C09": "Added after the seventeenth batch: C09.22 (= C08.19) the hoist key of a reference carries the reference whole (file, name, type arguments): same-named types of two files cannot share a hoisted validator.",
+    "C09": "Added after the seventeenth batch: C09.23 every function that enumerates a module's export tables also reads its `export *` list (found and guards fix 72dd0ae: `typeof NS` over a barrel lost what the barrel re-exports with `export *`); C09.22 (= C08.19) the hoist key of a reference carries the reference whole (file, name, type arguments): same-named types of two files cannot share a hoisted validator.",
     "C11": "Added after the seventeenth batch: C11.10 (= C07.17) who may construct a raw intersection: object members reach the runtime merged into one closed object, because every RuntypeKind::AllOf construction lies in the merging smart constructor or is consumed by the engine on the spot (necessary given recorded finding C11.3).",
     "C12": "Added after the seventeenth batch: C12.14 the `errors` member of a value tested with `\"isUnionError\" in v` is read only as the direct argument of a number-valued function (the depth measure): a reporter never re-parents the branch errors of a nested union error, whose paths are relative to it; C12.15 between pushPath(ctx, K) with K a bare property / index identifier and the matching popPath no reporter receives K itself as the value (1 known finding, executed under node: the key error of an index signature carries the key as `received` at the path of the value).",
     "C13": "Added after the seventeenth batch: C13.14 every method of the digest writer other than the finaliser that raises the fill level of the block buffer is followed, in the same statement list, by the flush `if (fill === 64) {compress; fill = 0}` - the finaliser's padding byte always fits; C13.3 also recognises a single-byte writer that stores its byte in the block buffer itself.",
